@@ -321,8 +321,11 @@ func verifDenotes(n *verifNode) (verifVal, bool) {
 
 // ---- generation ---------------------------------------------------------------
 
+var verifInnermostQuick = map[string]bool{"ABS": true, "SUM": true, "LEN": true, "UPPER": true, "LEFT": true, "CONCATENATE": true, "AND": true}
+
 type verifGen struct {
 	callsInnermost bool
+	pairedSiblings bool
 	nums, texts    int
 	symbolic       bool // the focus leaf holds a symbolic digit / letter
 }
@@ -373,6 +376,10 @@ func (g *verifGen) sibling(t byte, calls bool) *verifNode {
 	if !calls || zzverif.Choice("sibling", 2) == 0 {
 		return g.leaf(t, false)
 	}
+	return g.siblingCall(t)
+}
+
+func (g *verifGen) siblingCall(t byte) *verifNode {
 	switch t {
 	case 'N':
 		return g.call("MIN", 'N', g.leaf('N', false), g.leaf('N', false))
@@ -391,8 +398,8 @@ func (g *verifGen) tree(t byte, depth int, siblingCalls int) *verifNode {
 	}
 	var menu []*verifKind
 	for i := range verifKinds {
-		// (quick tier: the innermost node of a three level tree is a function call; operators there are left to the thorough tier)
-		if verifKinds[i].res == t && (verifKinds[i].form == 'f' || !g.callsInnermost || depth > 1) {
+		// (quick tier: the innermost node of a three level tree is one of a few representative function calls; every kind there is left to the thorough tier)
+		if verifKinds[i].res == t && (!g.callsInnermost || depth > 1 || (verifKinds[i].form == 'f' && verifInnermostQuick[verifKinds[i].name])) {
 			menu = append(menu, &verifKinds[i])
 		}
 	}
@@ -402,7 +409,18 @@ func (g *verifGen) tree(t byte, depth int, siblingCalls int) *verifNode {
 		pos = zzverif.Choice("focus-operand", len(k.args))
 	}
 	n := &verifNode{kind: k, typ: t, args: make([]*verifNode, len(k.args))}
+	// below the root the other operands are all literals or all completed calls (one choice)
+	if g.pairedSiblings && siblingCalls <= 0 && depth > 1 && len(k.args) > 1 && zzverif.Choice("inner-siblings-are-calls", 2) == 1 {
+		for i := range k.args {
+			if i != pos {
+				n.args[i] = g.siblingCall(k.args[i])
+			}
+		}
+	}
 	for i := range k.args {
+		if n.args[i] != nil {
+			continue
+		}
 		if i == pos {
 			n.args[i] = g.tree(k.args[i], depth-1, siblingCalls-1)
 		} else {
@@ -468,11 +486,12 @@ func VerifC17_Grouping() {
 }
 
 // VerifC17_Nesting: three levels, with completed calls as sibling operands of
-// the root (an earlier call in the same expression), concrete operands; in
-// the quick tier the innermost node is a function call.
+// the root (an earlier call in the same expression) and, below the root, the
+// other operands all literals or all completed calls; concrete operands; in
+// the quick tier the innermost node is one of seven representative calls.
 // cover: number, text, boolean
 func VerifC17_Nesting() {
-	g := &verifGen{callsInnermost: !zzverif.Thorough()}
+	g := &verifGen{callsInnermost: !zzverif.Thorough(), pairedSiblings: true}
 	t := verifResultTypes[zzverif.Choice("result-type", 3)]
 	verifCheckMigration(g.tree(t, 3, 1))
 }
